@@ -33,7 +33,11 @@ JudgeRtOne(c, P, k) ==
              ELSE Cl("S.selfdec", "skip"),
              IF ~nrm.ok /\ dec.st # "ok" THEN Cl("C01.value", "unspec")
              ELSE Tri("C01.value", r.ok /\ VEq(r.v, expected)),
-             IF r.ok THEN Tri("C01.pos", r.pos = SumLen(c.writes, k)) ELSE Cl("C01.pos", "fail") >>
+             IF r.ok THEN Tri("C01.pos", r.pos = SumLen(c.writes, k)) ELSE Cl("C01.pos", "fail"),
+             \* (C16's cases: a logical value offered to a union whose earlier branches are plain types it must not be taken for)
+             IF "c16" \notin DOMAIN c THEN Cl("C16.in_union", "skip")
+             ELSE IF ~nrm.ok THEN Cl("C16.in_union", "unspec")
+             ELSE Tri("C16.in_union", MatchCanon(t, d, w.bytes, names, o) /\ r.ok /\ VEq(r.v, nrm.v)) >>
 
 Judge_sl_rt(c) ==
   LET P == Parse(c.schema) IN
